@@ -1,34 +1,53 @@
 """C01 — Row byte format is lossless and self-delimiting.
 
-Three ties per case (DESIGN.md §6/C01):
+Ties per case (DESIGN.md §6/C01, design_notes/C01.md):
 
 * oracle, on the implementation alone: `Row.from_bytes(Row.as_bytes)` equals the row in wire form
   (floats by bit pattern, bool != int, tuples compared as lists); every strict prefix, every
-  extension and every single-bit change of the version nibble / the four length bytes raises
-  `DataError` — never another row, never another exception;
+  extension, every change of the version nibble and every change of the four length bytes raises
+  `DataError` — never another row, never another exception.  The oracle runs on **two decoders**:
+  the binary that is loaded (`bin`) and the working tree's `compiled.pyx` executed by the
+  source-level shadow (`src`, harness/pyxshadow.py) behind the same Python glue `Row.from_bytes`,
+  so an edit of the `.pyx` that nobody can compile here still yields a concrete failing record;
 * correspondence with `Model/RowCodec.lean`: the whole record byte for byte (`encode`, with the
-  timestamp read back from bytes 6..13, i.e. the clock is a parameter), and the outcome class of the
-  decoder (`ok row` / malformed / badLength / payloadError) on the record, its prefixes, extensions,
-  the 36 guarded bit flips, the 4+8 unguarded ones (accepted by design), and on arbitrary bytes;
+  timestamp read back from bytes 6..13: the clock is a parameter), and the outcome class of the
+  decoder (`ok row` / malformed / badLength / payloadError) on the record and on every alteration
+  (one `mutants` model call per record: tears, extensions, bit flips, nibble values, replaced
+  length fields; unguarded bits are accepted by design), and on arbitrary buffers;
+* sequences: rows serialised one after another in one process (state shared between calls), every
+  record decoded afterwards, the concatenation cut into records by the length fields
+  (`Model/RowStream.lean`, theorem `split_concat`);
 * encoder refusals (nesting beyond ormsgpack's limit, integers beyond 64 bits, payload above the
-  cap): no record is emitted on either side.
+  cap): no record is emitted on either side;  `default=` glue: what non-native items turn into.
 """
 import datetime
+import json
+import os
 import struct
+import subprocess
+import sys
 
-from .. import gen, wire
+from .. import core, gen, wire
 from ..core import InfraError, shrink
 
 MAX = 16 * 1024 * 1024
 _R = {}
+HISTORY = []  # (row, tuples) of everything serialised in this process by the run, in order
+_RECORD_HISTORY = [True]
+_REPORTED = set()  # normalised clauses already reported with a minimised input in this run
 
 
-def row_class(width):
+def row_class(width, variant=None):
+    """The Row class a case goes through: a class with `width` fields (default), one created with
+    `tuples_only=True`, or the base class `Row` itself (no fields) — all share as_bytes / from_bytes."""
     from orso.row import Row
 
-    if width not in _R:
-        _R[width] = Row.create_class(["c%d" % i for i in range(width)])
-    return _R[width]
+    if variant == "base":
+        return Row
+    key = (width, variant)
+    if key not in _R:
+        _R[key] = Row.create_class(["c%d" % i for i in range(width)], tuples_only=(variant == "tuples_only"))
+    return _R[key]
 
 
 # --------------------------------------------------------------------------- canonical forms
@@ -45,7 +64,7 @@ def to_py(v, tuples):
 
 
 def canon(v):
-    """Implementation value -> wire universe (tuples as lists); None if outside it."""
+    """Implementation value -> wire universe (tuples as lists)."""
     if isinstance(v, (list, tuple)):
         return [canon(x) for x in v]
     if isinstance(v, dict):
@@ -73,11 +92,56 @@ def is_reserved(v):
     return isinstance(v, (list, tuple)) and len(v) == 2 and isinstance(v[0], str) and v[0] == "__datetime__"
 
 
-def impl_decode(width, data):
-    """Outcome class of Row.from_bytes on `data`."""
+# --------------------------------------------------------------------------- the decoders under test
+
+_SHADOW = {}
+
+
+def shadow():
+    """(callable | None, reason) — `from_bytes_cython` of the working tree's .pyx, de-cythonised."""
+    if "f" not in _SHADOW:
+        try:
+            from .. import pyxshadow
+
+            funcs, failed = pyxshadow.load(core.REPO)
+            _SHADOW["f"] = funcs.get("from_bytes_cython")
+            _SHADOW["why"] = failed.get("from_bytes_cython")
+        except Exception as e:  # the shadow is an extra: never let it stop the check
+            _SHADOW["f"] = None
+            _SHADOW["why"] = "%s: %s" % (type(e).__name__, str(e)[:200])
+    return _SHADOW["f"], _SHADOW.get("why")
+
+
+class using_source:
+    """Run `Row.from_bytes` with the decoder of compiled.pyx (shadow) instead of the binary."""
+
+    def __enter__(self):
+        import orso.row as rowmod
+
+        self.mod = rowmod
+        self.saved = rowmod.from_bytes_cython
+        rowmod.from_bytes_cython = shadow()[0]
+        return self
+
+    def __exit__(self, *a):
+        self.mod.from_bytes_cython = self.saved
+
+
+class _Direct:
+    """`orso.compute.compiled.from_bytes_cython` called without the Python glue (second call site)."""
+
+    @staticmethod
+    def from_bytes(data):
+        import orso.compute.compiled as cc
+
+        return cc.from_bytes_cython(data)
+
+
+def impl_decode(width, data, variant=None):
+    """Outcome class of Row.from_bytes on `data`: (form, exception name | None)."""
     from orso.exceptions import DataError
 
-    R = row_class(width)
+    R = _Direct if variant == "direct" else row_class(width, variant)
     try:
         row = R.from_bytes(data)
     except DataError as e:
@@ -93,10 +157,21 @@ def impl_decode(width, data):
     return ["ok", items], None
 
 
-def model_decode_form(text):
-    if not text.startswith("ok "):
-        raise InfraError("model rejected a decode op: %r" % text)
-    v = wire.dec_all(text[3:])[0]
+def decode_all(width, datas, variant=None):
+    """{'bin': [...], 'src': [...] | None, 'direct': [...]} outcomes of the decoders on every buffer
+    (`direct`: the compiled function without the glue, on the first buffer only)."""
+    out = {"bin": [impl_decode(width, d, variant) for d in datas], "src": None, "direct": [impl_decode(width, datas[0], "direct")]}
+    if shadow()[0] is not None:
+        with using_source():
+            out["src"] = [impl_decode(width, d, variant) for d in datas]
+    return out
+
+
+WHO = {"bin": "", "src": " [compiled.pyx as written, executed by the source-level shadow]",
+       "direct": " [orso.compute.compiled.from_bytes_cython called directly]"}
+
+
+def model_decode_form(v):
     if v[0] == "ok":
         items = []
         for it in v[1]:
@@ -105,12 +180,20 @@ def model_decode_form(text):
     return v
 
 
+def model_forms(text, what):
+    if not text.startswith("ok "):
+        raise InfraError("model rejected a %s op: %r" % (what, text[:200]))
+    return wire.dec_all(text[3:])
+
+
 def impl_encode(case):
     """(record bytes | None, error kind | None)."""
     from orso.exceptions import DataError
 
     row = case["row"]
-    R = row_class(len(row))
+    R = row_class(len(row), case.get("cls"))
+    if _RECORD_HISTORY[0]:
+        HISTORY.append((row, bool(case.get("tuples", False))))
     try:
         rec = R(tuple(to_py(x, case.get("tuples", False)) for x in row)).as_bytes
     except DataError:
@@ -119,73 +202,98 @@ def impl_encode(case):
         return None, "codec"
     except OverflowError:
         return None, "overflow"
+    except Exception as e:  # nothing else is documented: still an outcome of the implementation, not of the harness
+        return None, "raises " + type(e).__name__
     return rec, None
 
 
-# --------------------------------------------------------------------------- mutations of a record
+# --------------------------------------------------------------------------- alterations of a record
 
 
-def mutations(case, rec, rng_seed):
-    """[(label, bytes, must_be_rejected, to_model)] — deterministic in (case, rec length).
+def apply_desc(rec, d):
+    """The harness's own reading of an alteration descriptor (the model has `Drv.C01.applyMut`)."""
+    k = d[0]
+    if k == "t":
+        return rec[: d[1]]
+    if k == "f":
+        b = bytearray(rec)
+        b[d[1]] ^= 1 << d[2]
+        return bytes(b)
+    if k == "x":
+        return rec + d[1]
+    if k == "l":
+        return rec[:2] + d[1] + rec[6:]
+    if k == "s":
+        b = bytearray(rec)
+        b[d[1]] = d[2]
+        return bytes(b)
+    raise InfraError("bad descriptor %r" % (d,))
 
-    Every mutation is put to the implementation (oracle); for records above 64 KiB only a sample
-    goes to the model as well (correspondence), to keep the run inside its budget."""
+
+def mutations(case, rec, rng_seed, light=False):
+    """[(label, descriptor, must_be_rejected, to_model)] — deterministic in (case, rec length).
+
+    Every alteration is put to both decoders (oracle); the model sees every tear point of records
+    up to 600 bytes and a sample beyond (correspondence)."""
     import random
 
     rng = random.Random(rng_seed)
     n = len(rec)
     huge = n > 65536
     out = []
-    if n <= 4096:
+    if n <= 4096 and not light:
         points = list(range(n))
     else:
         pts = set(range(0, 40)) | set(range(n - 40, n)) | {n // 2, 13, 14, 15}
-        pts |= {rng.randrange(n) for _ in range(80)}
+        pts |= {rng.randrange(n) for _ in range(80 if not light else 10)}
         points = sorted(p for p in pts if 0 <= p < n)
-    if n <= 600:
-        model_points = set(points)  # the model sees every tear point of records up to 600 bytes
+    if n <= 600 and not light:
+        model_points = set(points)
     elif not huge:
         model_points = {0, 1, 2, 5, 6, 13, 14, 15, 16, n // 2, n - 2, n - 1} | {rng.choice(points) for _ in range(28)}
     else:
         model_points = {0, 13, 14, 15, n // 2, n - 1, rng.choice(points), rng.choice(points)}
     for k in points:
-        out.append(("torn", rec[:k], True, k in model_points))
-    out.append(("ext1", rec + b"\x00", True, True))
-    out.append(("ext1", rec + bytes([rng.getrandbits(8)]), True, not huge))
-    out.append(("extN", rec + bytes(rng.getrandbits(8) for _ in range(rng.randint(2, 20))), True, not huge))
-    out.append(("ext2", rec + rec, True, not huge))
+        out.append(("torn", ["t", k], True, k in model_points))
+    out.append(("ext1", ["x", b"\x00"], True, True))
+    out.append(("ext1", ["x", bytes([rng.getrandbits(8)])], True, not huge))
+    out.append(("extN", ["x", bytes(rng.getrandbits(8) for _ in range(rng.randint(2, 20)))], True, not huge))
+    out.append(("ext2", ["x", rec], True, not huge))
     pick = rng.randrange(32)
     for j in range(4, 8):
-        out.append(("verflip", bytes([rec[0] ^ (1 << j)]) + rec[1:], True, not huge or j == 4 + pick % 4))
+        out.append(("verflip", ["f", 0, j], True, not huge or j == 4 + pick % 4))
+    # every other value of the version nibble (theorem version_altered_rejected), low nibble kept / random
+    for v in range(16):
+        if v != rec[0] >> 4:
+            out.append(("vernib", ["s", 0, (v << 4) | (rec[0] & 15 if v % 2 else rng.getrandbits(4))], True, not huge))
     for i in range(2, 6):
         for j in range(8):
-            b = bytearray(rec)
-            b[i] ^= 1 << j
-            out.append(("lenflip", bytes(b), True, not huge or (i - 2) * 8 + j in (pick, (pick * 7 + 3) % 32)))
-    # not guarded by design: low nibble of byte 0, byte 1, the timestamp
+            out.append(("lenflip", ["f", i, j], True, not huge or (i - 2) * 8 + j in (pick, (pick * 7 + 3) % 32)))
+    # any other four length bytes (theorem length_altered_rejected): neighbours, byte order, sign bit, random
+    ln = n - 14
+    alts = {(ln + 1) & 0xFFFFFFFF, (ln - 1) & 0xFFFFFFFF, ln | 0x80000000, (ln + 14) & 0xFFFFFFFF, n & 0xFFFFFFFF,
+            int.from_bytes(struct.pack("<I", ln), "big"), (ln << 8) & 0xFFFFFFFF, ln >> 8, 0, 0xFFFFFFFF, rng.getrandbits(32),
+            rng.getrandbits(8), (ln + 256) & 0xFFFFFFFF, (ln + 65536) & 0xFFFFFFFF, (ln + (1 << 24)) & 0xFFFFFFFF}
+    alts.discard(ln)
+    for a in sorted(alts):
+        out.append(("lenset", ["l", struct.pack(">I", a)], True, not huge))
+    # not guarded by design: low nibble of byte 0, byte 1, the timestamp (records above 4 KiB: one of each,
+    # every accepted alteration costs a full decode and comparison of the row)
     for j in range(4):
-        out.append(("lowflip", bytes([rec[0] ^ (1 << j)]) + rec[1:], False, not huge or j == pick % 4))
+        if n <= 4096 or j == pick % 4:
+            out.append(("lowflip", ["f", 0, j], False, True))
     for j in range(8):
-        out.append(("flagflip", rec[:1] + bytes([rec[1] ^ (1 << j)]) + rec[2:], False, not huge or j == pick % 8))
-    b = bytearray(rec)
-    b[6 + rng.randrange(8)] ^= 1 << rng.randrange(8)
-    out.append(("tsflip", bytes(b), False, not huge))
+        if n <= 4096 or j == pick % 8:
+            out.append(("flagflip", ["f", 1, j], False, True))
+    out.append(("tsflip", ["f", 6 + rng.randrange(8), rng.randrange(8)], False, not huge))
     return out
 
 
-# --------------------------------------------------------------------------- evaluation
+def mut_seed(row, rec):
+    return len(row) * 7919 + (len(rec) if rec else 0)
 
 
-def valid_case(c):
-    k = c.get("kind")
-    if k == "row":
-        row = c.get("row")
-        if not isinstance(row, list):
-            return False
-        return wire_ok(row) and not any(is_reserved(x) for x in row)
-    if k == "bytes":
-        return isinstance(c.get("data"), bytes) and isinstance(c.get("width"), int)
-    return k in ("reserved", "refuse", "big", "deep")
+# --------------------------------------------------------------------------- validity of cases
 
 
 def wire_ok(v, depth=0):
@@ -205,29 +313,212 @@ def wire_ok(v, depth=0):
     return False
 
 
-def oracle_row(case, rec, muts):
-    """The property on the implementation's own outputs. Returns (clause, detail) or None."""
-    row = case["row"]
-    w = len(row)
-    got, exc = impl_decode(w, rec)
+def valid_row(row):
+    return isinstance(row, list) and wire_ok(row) and not any(is_reserved(x) for x in row)
+
+
+def valid_case(c):
+    k = c.get("kind")
+    if k == "row":
+        return valid_row(c.get("row"))
+    if k == "seq":
+        rows = c.get("rows")
+        return isinstance(rows, list) and len(rows) >= 1 and all(valid_row(r) for r in rows)
+    if k == "bytes":
+        return isinstance(c.get("data"), bytes) and isinstance(c.get("width"), int)
+    return k in ("reserved", "refuse", "big", "deep", "glue")
+
+
+# --------------------------------------------------------------------------- the oracle
+
+
+def judge_row(row, datas, labels, musts, outs, who):
+    """The property on one decoder's outcomes. `outs[0]` is the outcome on the record itself."""
+    got, exc = outs[0]
     if got[0] != "ok":
-        return "an emitted record is rejected by the decoder (%s)" % (exc,), got
+        return "an emitted record is rejected by the decoder (%s)%s" % (exc, WHO[who]), got
     back = [it[1] if it[0] == "v" else it for it in got[1]]
     if not wire.same(back, row):
-        return "round trip returns a different row", back
-    for label, data, must, _tm in muts:
+        return "round trip returns a different row" + WHO[who], back
+    for label, must, data, (g, exc) in zip(labels, musts, datas[1:], outs[1:]):
         if not must:
             continue
-        g, exc = impl_decode(w, data)
         if g[0] == "ok":
-            return "%s record is accepted and decoded into a row" % label, {"data": data, "row": g[1]}
+            return "%s record is accepted and decoded into a row%s" % (label, WHO[who]), {"data": data, "row": g[1]}
         if exc != "DataError":
-            return "%s record raises %s instead of a data error" % (label, exc), {"data": data}
+            return "%s record raises %s instead of a data error%s" % (label, exc, WHO[who]), {"data": data}
     return None
+
+
+def oracle_row(case, rec, muts, outcomes=None):
+    """(clause, detail) or None, over both decoders (binary first)."""
+    row = case["row"]
+    datas = [rec] + [apply_desc(rec, d) for _, d, _, _ in muts]
+    labels = [m[0] for m in muts]
+    musts = [m[2] for m in muts]
+    if outcomes is None:
+        outcomes = decode_all(len(row), datas, case.get("cls"))
+    for who in ("bin", "src", "direct"):
+        if outcomes[who] is None:
+            continue
+        cl = judge_row(row, datas, labels, musts, outcomes[who], who)
+        if cl is not None:
+            return cl
+    return None
+
+
+def py_split(data):
+    """The harness's own stream reader: cut `14 + length field` bytes, as long as something is left."""
+    out = []
+    i = 0
+    while i < len(data):
+        if len(data) - i < 14:
+            return None
+        n = int.from_bytes(data[i + 2:i + 6], "big")
+        if n >= 2**31 or len(data) - i < 14 + n:
+            return None
+        out.append(data[i:i + 14 + n])
+        i += 14 + n
+    return out
+
+
+def oracle_seq(case):
+    """Rows serialised one after another in this process, then decoded (in order, then in reverse)."""
+    rows = case["rows"]
+    tuples = case.get("tuples", False)
+    recs = []
+    for i, row in enumerate(rows):
+        rec, err = impl_encode({"row": row, "tuples": tuples})
+        if rec is None:
+            return ("the encoder refuses a row of the value domain (%s) in a sequence" % err, {"index": i, "row": row}), recs
+        recs.append(rec)
+    order = list(range(len(rows))) + list(range(len(rows) - 1, -1, -1))
+    for who in ("bin", "src"):
+        if who == "src" and shadow()[0] is None:
+            continue
+        ctxm = using_source() if who == "src" else None
+        if ctxm:
+            ctxm.__enter__()
+        try:
+            for i in order:
+                got, exc = impl_decode(len(rows[i]), recs[i])
+                if got[0] != "ok":
+                    return ("an emitted record is rejected by the decoder (%s) in a sequence%s" % (exc, WHO[who]), {"index": i, "row": rows[i]}), recs
+                back = [it[1] if it[0] == "v" else it for it in got[1]]
+                if not wire.same(back, rows[i]):
+                    return ("round trip returns a different row for a row serialised after others in the same process" + WHO[who],
+                            {"index": i, "row": rows[i], "decoded": back}), recs
+        finally:
+            if ctxm:
+                ctxm.__exit__()
+    parts = py_split(b"".join(recs))
+    if parts != recs:
+        return ("concatenated records are not separated by their length fields", {"records": [r[:6] for r in recs]}), recs
+    return None, recs
 
 
 def _norm(clause):
     return None if clause is None else "".join(ch for ch in clause if not ch.isdigit())
+
+
+# --------------------------------------------------------------------------- a fresh process
+
+
+def fresh_oracle(case, timeout=120):
+    """Evaluate the oracle on `case` (kind row / seq) in a new interpreter: no state left by earlier cases."""
+    env = dict(os.environ)
+    env["ORSO_REPO"] = core.REPO
+    env["PYTHONPATH"] = core.VERIF + (":" + env["PYTHONPATH"] if env.get("PYTHONPATH") else "")
+    p = subprocess.run([sys.executable, "-m", "harness.props.c01", "--fresh"], input=json.dumps(core._jsonable(case)),
+                       capture_output=True, text=True, timeout=timeout, env=env, cwd=core.VERIF)
+    for l in reversed(p.stdout.split("\n")):
+        if l.startswith("FRESH "):
+            r = json.loads(l[6:])
+            return r.get("clause"), r.get("detail")
+    raise InfraError("fresh-process oracle failed: rc=%s %s" % (p.returncode, (p.stdout + p.stderr)[-600:]))
+
+
+def _fresh_main():
+    from .. import runner
+
+    runner.setup_impl_path()
+    _RECORD_HISTORY[0] = False
+    case = core.unjson(json.loads(sys.stdin.read()))
+    clause = None
+    if case.get("kind") == "seq":
+        cl, _ = oracle_seq(case)
+        clause = cl
+    else:
+        rec, err = impl_encode(case)
+        if rec is None:
+            clause = ("the encoder refuses a row of the value domain (%s)" % err, err)
+        else:
+            clause = oracle_row(case, rec, mutations(case, rec, mut_seed(case["row"], rec)))
+    print("FRESH " + json.dumps({"clause": clause[0] if clause else None, "detail": core._jsonable(clause[1]) if clause else None}))
+
+
+def py_equal(a, b):
+    """Python `==` of the two rows as the implementation sees them (what a cache keyed by value compares)."""
+    try:
+        return bool(tuple(to_py(x, True) for x in a) == tuple(to_py(x, True) for x in b))
+    except Exception:
+        return False
+
+
+def history_witness(ctx, row, tuples, clause):
+    """The row fails here but not in a fresh process: find earlier rows of this process that make it fail."""
+    target = _norm(clause)
+    tries = [0]
+
+    def fails(rows):
+        tries[0] += 1
+        cl, _ = fresh_oracle({"kind": "seq", "rows": rows, "tuples": tuples})
+        return cl is not None
+
+    prior = []
+    seen = set()
+    for r, _t in HISTORY[:-1]:
+        k = json.dumps(core._jsonable(r), sort_keys=True, default=repr)
+        if k not in seen:
+            seen.add(k)
+            prior.append(r)
+    # 1. one earlier row that compares equal under Python's == (a cache keyed by value)
+    for r in [r for r in prior if py_equal(r, row) and not wire.same(r, row)][:6]:
+        if fails([r, row]):
+            return [r, row]
+    # 2. one earlier row of the same width, most recent first
+    for r in [r for r in reversed(prior) if len(r) == len(row) and not wire.same(r, row)][:4]:
+        if fails([r, row]):
+            return [r, row]
+    # 3. bisect the recent history
+    recent = prior[-256:]
+    if not fails(recent + [row]):
+        return None
+    while len(recent) > 1 and tries[0] < 24:
+        half = len(recent) // 2
+        if fails(recent[half:] + [row]):
+            recent = recent[half:]
+        elif fails(recent[:half] + [row]):
+            recent = recent[:half]
+        else:
+            break
+    # the halves are both needed (or the budget is used): drop chunks, then single rows, while it still fails
+    chunk = max(1, len(recent) // 4)
+    while chunk >= 1 and tries[0] < 60 and len(recent) > 1:
+        i, progress = 0, False
+        while i < len(recent) and tries[0] < 60 and len(recent) > 1:
+            cand = recent[:i] + recent[i + chunk:]
+            if cand and fails(cand + [row]):
+                recent, progress = cand, True
+            else:
+                i += chunk
+        if chunk == 1 and not progress:
+            break
+        chunk = chunk // 2 if chunk > 1 else (1 if progress else 0)
+    return recent + [row]
+
+
+# --------------------------------------------------------------------------- statistics helpers
 
 
 def kinds_of(v, acc):
@@ -250,6 +541,8 @@ def kinds_of(v, acc):
                 acc.add("float:-0.0")
         if isinstance(v, int) and not isinstance(v, bool) and (v >= 2**63 or v == -(2**63)):
             acc.add("int:64-bit-extreme")
+        if isinstance(v, str) and not v.isascii():
+            acc.add("str:non-ascii")
     return acc
 
 
@@ -274,169 +567,293 @@ def expand(c):
     return {"kind": "row" if total <= 255 else "refuse", "why": "too-deep", "row": [v], "orig": c}
 
 
+# --------------------------------------------------------------------------- evaluation
+
+
 def evaluate(ctx, cases):
-    """Run a batch: implementation, oracle, model, comparison."""
+    """Run a batch: implementation (both decoders), oracle, model, comparison."""
     lines = []
-    plan = []  # (case, kind, payload...) aligned with model lines
+    plan = []
     for c in cases:
         c = expand(c)
         k = c["kind"]
+        first = len(lines)
         if k == "row" or k == "reserved":
             rec, err = impl_encode(c)
-            seed = len(c["row"]) * 7919 + (len(rec) if rec else 0)
             ts = int.from_bytes(rec[6:14], "big") if rec else 0
-            first = len(lines)
             lines.append("C01 encode " + wire.line(ts, c["row"]))
             muts = []
             if rec is not None:
-                muts = mutations(c, rec, seed)
+                muts = mutations(c, rec, mut_seed(c["row"], rec), light=c.get("light", False))
                 if k == "reserved":
                     muts = muts[-3:]
-                lines.append("C01 decode " + wire.line(rec))
-                for _, data, _, tm in muts:
-                    if tm:
-                        lines.append("C01 decode " + wire.line(data))
-            plan.append((c, first, len(lines), rec, err, muts))
+                lines.append("C01 mutants " + wire.line(rec, [d for _, d, _, tm in muts if tm]))
+            plan.append((c, first, len(lines), (rec, err, muts)))
         elif k == "bytes":
-            first = len(lines)
             lines.append("C01 decode " + wire.line(c["data"]))
-            plan.append((c, first, len(lines), None, None, None))
+            plan.append((c, first, len(lines), None))
         elif k == "refuse":
             rec, err = impl_encode(c)
-            first = len(lines)
             lines.append("C01 encode " + wire.line(0, c["row"]))
-            plan.append((c, first, len(lines), rec, err, None))
+            plan.append((c, first, len(lines), (rec, err)))
         elif k == "big":
-            first = len(lines)
             lines.append("C01 bigframe " + wire.line(c["n"], 0, c.get("cut", 0), c.get("ext", 0)))
-            plan.append((c, first, len(lines), None, None, None))
+            plan.append((c, first, len(lines), None))
+        elif k == "seq":
+            cl, recs = oracle_seq(c)
+            for row, rec in zip(c["rows"], recs):
+                lines.append("C01 encode " + wire.line(int.from_bytes(rec[6:14], "big"), row))
+            if cl is None:
+                lines.append("C01 stream " + wire.line(b"".join(recs)))
+                lines.append("C01 split " + wire.line(b"".join(recs)))
+            plan.append((c, first, len(lines), (cl, recs)))
+        elif k == "glue":
+            info = glue_prepare(c)
+            lines.append("C01 encode " + wire.line(info["ts"], info["image"]))
+            plan.append((c, first, len(lines), info))
         else:
             raise InfraError("bad case kind %r" % (k,))
     mouts = ctx.model.batch(lines)
-    for c, a, b, rec, err, muts in plan:
+    for c, a, b, extra in plan:
         k = c["kind"]
         mo = mouts[a:b]
         if k in ("row", "reserved"):
-            eval_row(ctx, c, rec, err, muts, mo)
+            eval_row(ctx, c, extra[0], extra[1], extra[2], mo)
         elif k == "bytes":
             eval_bytes(ctx, c, mo[0])
         elif k == "refuse":
-            eval_refuse(ctx, c, rec, err, mo[0])
+            eval_refuse(ctx, c, extra[0], extra[1], mo[0])
+        elif k == "seq":
+            eval_seq(ctx, c, extra[0], extra[1], mo)
+        elif k == "glue":
+            eval_glue(ctx, c, extra, mo[0])
         else:
             eval_big(ctx, c, mo[0])
 
 
-def model_encode_form(text):
-    if not text.startswith("ok "):
-        raise InfraError("model rejected an encode op: %r" % text)
-    return wire.dec_all(text[3:])[0]
-
-
 def eval_row(ctx, c, rec, err, muts, mo):
     row = c["row"]
-    if "orig" in c:
-        return eval_deep(ctx, c, rec, err, muts, mo)
+    deep = c.get("orig")
+    shown = deep if deep is not None else c
     ks = kinds_of(row, set())
     nontrivial = len(row) >= 1 and rec is not None
-    ctx.case(c, nontrivial)
-    ctx.hit("kind:" + c["kind"])
-    ctx.hit("width:%d" % min(len(row), 9))
-    for kk in ks:
-        ctx.hit("value:" + kk)
-    me = model_encode_form(mo[0])
+    ctx.case(shown, nontrivial)
+    ctx.hit("kind:" + ("deep" if deep is not None else c["kind"]))
+    if c.get("shape"):
+        ctx.hit("shape:%s" % c["shape"])
+        ctx.hit("shape-width:%d" % len(row) if len(row) < 1000 else "shape-width:>=65535")
+    elif deep is None:
+        ctx.hit("width:%d" % min(len(row), 9))
+        for kk in ks:
+            ctx.hit("value:" + kk)
+    me = model_forms(mo[0], "encode")[0]
     if rec is None:
         # the generator only produces encodable rows here: a refusal is a violation of losslessness
         ctx.hit("encoder-refused:" + err)
         if c["kind"] == "row":
-            _fail_row(ctx, c, "the encoder refuses a row of the value domain (%s)" % err, err, me)
+            if deep is not None:
+                ctx.fail(deep, "the encoder refuses a row of the value domain (%s)" % err, impl=err, model=me[:1])
+            else:
+                _fail_row(ctx, c, "the encoder refuses a row of the value domain (%s)" % err, err, me)
         return
     ctx.hit("record:" + size_bucket(len(rec)))
-    clause = oracle_row(c, rec, muts) if c["kind"] == "row" else None
+    datas = [rec] + [apply_desc(rec, d) for _, d, _, _ in muts]
+    outcomes = decode_all(len(row), datas, c.get("cls"))
+    if c.get("cls"):
+        ctx.hit("class:" + c["cls"])
+    clause = oracle_row(c, rec, muts, outcomes) if c["kind"] == "row" else None
     if clause is not None:
-        _fail_row(ctx, c, clause[0], clause[1], me)
+        if deep is not None:
+            ctx.fail(deep, clause[0], impl=None, model=None)
+        else:
+            _fail_row(ctx, c, clause[0], clause[1], me)
         return
     # correspondence: the record itself
     if me[0] != "ok" or me[1] != rec:
-        ctx.disagree(c, {"record": rec}, {"encode": me}, "encoder output differs from the model (bytes 6..13 are the clock, fed to the model)")
+        ctx.disagree(shown, {"record": rec}, {"encode": me}, "encoder output differs from the model (bytes 6..13 are the clock, fed to the model)")
         return
-    # correspondence: decoder outcome classes
-    g, _ = impl_decode(len(row), rec)
-    m = model_decode_form(mo[1])
-    if not wire.same(g, m):
-        ctx.disagree(c, {"decode": g}, {"decode": m}, "decoder outcome on the emitted record differs")
-        return
-    for (label, data, must, _tm), text in zip([x for x in muts if x[3]], mo[2:]):
-        g, exc = impl_decode(len(row), data)
-        m = model_decode_form(text)
-        ctx.hit("mutation:%s->%s" % (label, g[1] if g[0] == "err" else "ok"))
-        if not wire.same(g, m):
-            ctx.disagree({"kind": "bytes", "width": len(row), "data": data, "from": label}, {"decode": g}, {"decode": m},
-                         "decoder outcome on a %s record differs" % label)
+    # correspondence: decoder outcome classes, one model answer per alteration sent
+    mm = model_forms(mo[1], "mutants")
+    base = model_decode_form(mm[0])
+    answers = mm[1]
+    sent = [i for i, m in enumerate(muts) if m[3]]
+    if len(answers) != len(sent):
+        raise InfraError("mutants: %d answers for %d alterations" % (len(answers), len(sent)))
+    for who in ("bin", "src"):
+        outs = outcomes[who]
+        if outs is None:
+            continue
+        if not wire.same(outs[0][0], base):
+            ctx.disagree(shown, {"decode": outs[0][0], "decoder": who}, {"decode": base}, "decoder outcome on the emitted record differs" + WHO[who])
             return
-
-
-def eval_deep(ctx, c, rec, err, muts, mo):
-    """A deeply nested row within ormsgpack's limit: same demands as any row, reported compactly."""
-    o = c["orig"]
-    ctx.case(o, True)
-    ctx.hit("kind:deep")
-    me = model_encode_form(mo[0])
-    if rec is None:
-        ctx.fail(o, "the encoder refuses a row of the value domain (%s)" % err, impl=err, model=me[:1])
-        return
-    clause = oracle_row(c, rec, muts)
-    if clause is not None:
-        ctx.fail(o, clause[0], impl=None, model=None)
-        return
-    if me[0] != "ok" or me[1] != rec:
-        ctx.disagree(o, {"record": rec}, {"encode": me}, "encoder output differs from the model on a deep row")
-        return
-    for (label, data, must, _tm), text in zip([("rec", rec, False, True)] + [x for x in muts if x[3]], mo[1:]):
-        g, exc = impl_decode(1, data)
-        m = model_decode_form(text)
-        if not wire.same(g, m):
-            ctx.disagree(o, {"decode": g[:1], "on": label}, {"decode": m[:1]}, "decoder outcome on a deep row differs")
-            return
+        for i, a in zip(sent, answers):
+            m = base if a == "same" else model_decode_form(a)
+            g = outs[i + 1][0]
+            if who == "bin":
+                ctx.hit("mutation:%s->%s" % (muts[i][0], g[1] if g[0] == "err" else "ok"))
+            if g != m and not wire.same(g, m):
+                ctx.disagree({"kind": "bytes", "width": len(row), "data": datas[i + 1], "from": muts[i][0]}, {"decode": g, "decoder": who}, {"decode": m},
+                             "decoder outcome on a %s record differs%s" % (muts[i][0], WHO[who]))
+                return
+    if outcomes["src"] is not None and outcomes["src"] != outcomes["bin"]:
+        for i, (x, y) in enumerate(zip(outcomes["bin"], outcomes["src"])):
+            if x != y and not wire.same(x[0], y[0]):
+                ctx.disagree({"kind": "bytes", "width": len(row), "data": datas[i]}, {"decode": x[0], "decoder": "bin"}, {"decode": y[0], "decoder": "src"},
+                             "the loaded binary and compiled.pyx (shadow) differ on a record")
+                return
 
 
 def _fail_row(ctx, c, clause, impl, model):
-    def still(c2):
-        if not valid_case(c2) or c2.get("kind") != "row":
-            return False
-        rec2, err2 = impl_encode(c2)
-        if rec2 is None:
-            return _norm(clause) == _norm("the encoder refuses a row of the value domain (%s)" % err2)
-        cl = oracle_row(c2, rec2, mutations(c2, rec2, len(c2["row"]) * 7919 + len(rec2)))
-        return cl is not None and _norm(cl[0]) == _norm(clause)
+    """Report an oracle failure on a row with the smallest input that reproduces it in a fresh process."""
+    if ctx.replaying:
+        ctx.fail(c, clause, impl=impl, model=model)
+        return
+    if _norm(clause) in _REPORTED or any(_norm(v.get("sig")) == _norm(clause) for v in ctx.violations):
+        ctx.hit("violation-dup:" + _norm(clause))  # already reported with a minimal input
+        return
+    _REPORTED.add(_norm(clause))
+    _RECORD_HISTORY[0] = False
+    try:
+        fresh_clause = None
+        try:
+            fresh_clause, _ = fresh_oracle({"kind": "row", "row": c["row"], "tuples": c.get("tuples", False), "cls": c.get("cls")})
+        except Exception as e:
+            ctx.note("fresh_oracle_error", str(e)[:300])
+            fresh_clause = clause
+        if fresh_clause is None:
+            # depends on what this process did before: a sequence is the input
+            try:
+                rows = history_witness(ctx, c["row"], c.get("tuples", False), clause)
+            except Exception as e:
+                ctx.note("history_witness_error", str(e)[:300])
+                rows = None
+            if rows is not None:
+                sc = {"kind": "seq", "rows": rows, "tuples": c.get("tuples", False)}
+                cl, _ = fresh_oracle(sc)
+                ctx.fail(sc, cl or clause, impl=impl, model=None,
+                         detail="the last row alone round-trips in a fresh process; it fails after the earlier rows were serialised in the same process")
+                return
+            ctx.fail(c, clause, impl=impl, model=model,
+                     detail="observed in the run but not reproduced in a fresh process: depends on state left by earlier cases")
+            return
 
-    c_min = c if ctx.replaying else shrink(c, still)
-    if c_min is not c:
-        rec2, err2 = impl_encode(c_min)
-        if rec2 is not None:
-            cl = oracle_row(c_min, rec2, mutations(c_min, rec2, len(c_min["row"]) * 7919 + len(rec2)))
-            if cl is not None:
-                clause, impl = cl
-    ctx.fail(c_min, clause, impl=impl, model=model if c_min is c else None)
+        def still(c2):
+            if not valid_case(c2) or c2.get("kind") != "row":
+                return False
+            rec2, err2 = impl_encode(c2)
+            if rec2 is None:
+                return _norm(clause) == _norm("the encoder refuses a row of the value domain (%s)" % err2)
+            cl = oracle_row(c2, rec2, mutations(c2, rec2, mut_seed(c2["row"], rec2)))
+            return cl is not None and _norm(cl[0]) == _norm(clause)
+
+        c_min = shrink(c, still)
+        if c_min is not c:
+            rec2, err2 = impl_encode(c_min)
+            if rec2 is not None:
+                cl = oracle_row(c_min, rec2, mutations(c_min, rec2, mut_seed(c_min["row"], rec2)))
+                if cl is not None:
+                    clause, impl = cl
+        ctx.fail(c_min, clause, impl=impl, model=model if c_min is c else None)
+    finally:
+        _RECORD_HISTORY[0] = True
+
+
+def eval_seq(ctx, c, cl, recs, mo):
+    rows = c["rows"]
+    ctx.case(c, len(rows) >= 2)
+    ctx.hit("kind:seq")
+    ctx.hit("seq:%s" % c.get("why", "random"))
+    ctx.hit("seq-length:%s" % (len(rows) if len(rows) < 8 else ">=8"))
+    if cl is not None:
+        if ctx.replaying:
+            ctx.fail(c, cl[0], impl=cl[1])
+            return
+        if _norm(cl[0]) in _REPORTED or any(_norm(v.get("sig")) == _norm(cl[0]) for v in ctx.violations):
+            ctx.hit("violation-dup:" + _norm(cl[0]))
+            return
+        _REPORTED.add(_norm(cl[0]))
+        # smallest sub-sequence, judged in fresh processes (the state of this one is part of the input)
+        _RECORD_HISTORY[0] = False
+        try:
+            best = c
+            try:
+                fc, _ = fresh_oracle(c)
+                if fc is not None:
+                    idx = cl[1].get("index") if isinstance(cl[1], dict) else None
+                    if idx is not None:
+                        for cand in [[rows[idx]]] + [[rows[j], rows[idx]] for j in range(idx - 1, -1, -1)][:8]:
+                            c2 = dict(c, rows=cand)
+                            f2, d2 = fresh_oracle(c2)
+                            if f2 is not None:
+                                best, cl = c2, (f2, d2)
+                                break
+            except Exception as e:
+                ctx.note("fresh_oracle_error", str(e)[:300])
+            ctx.fail(best, cl[0], impl=cl[1])
+        finally:
+            _RECORD_HISTORY[0] = True
+        return
+    for i, (row, rec) in enumerate(zip(rows, recs)):
+        me = model_forms(mo[i], "encode")[0]
+        if me[0] != "ok" or me[1] != rec:
+            ctx.disagree(c, {"record": rec, "index": i}, {"encode": me}, "encoder output differs from the model for a row serialised after others in the same process")
+            return
+    n = len(rows)
+    ms = model_forms(mo[n], "stream")[0]
+    want = ["ok", [[["v", x] for x in row] for row in rows]]
+    got = ["ok", [model_decode_form(["ok", r])[1] for r in ms[1]]] if ms[0] == "ok" else ms
+    if not wire.same(got, want):
+        ctx.disagree(c, {"rows": want}, {"stream": got}, "the model's stream reader does not give back the rows")
+        return
+    sp = model_forms(mo[n + 1], "split")[0]
+    if sp[0] != "ok" or sp[1] != recs:
+        # the harness's reader agreed with the records (oracle) and the model's does not
+        raise InfraError("model split differs from the harness's reader on %r" % (b"".join(recs)[:60],))
 
 
 def eval_bytes(ctx, c, mo):
     data = c["data"]
     ctx.case(c, len(data) >= 14)
     ctx.hit("kind:bytes")
-    g, exc = impl_decode(c["width"], data)
-    m = model_decode_form(mo)
+    outs = decode_all(c["width"], [data])
+    g, exc = outs["bin"][0]
+    m = model_decode_form(model_forms(mo, "decode")[0])
     ctx.hit("bytes->%s" % (g[1] if g[0] == "err" else "ok"))
     if exc not in (None, "DataError"):
         ctx.hit("payload-exception:" + exc)
+    if len(data) > 14:
+        ctx.hit("payload-first-byte:%s" % family(data[14]))
     if not wire.same(g, m):
-        ctx.disagree(c, {"decode": g}, {"decode": m}, "decoder outcome on arbitrary bytes differs")
+        ctx.disagree(c, {"decode": g, "decoder": "bin"}, {"decode": m}, "decoder outcome on arbitrary bytes differs")
+        return
+    if outs["src"] is not None:
+        g2, exc2 = outs["src"][0]
+        if not wire.same(g2, m):
+            ctx.disagree(c, {"decode": g2, "decoder": "src"}, {"decode": m}, "decoder outcome on arbitrary bytes differs" + WHO["src"])
+
+
+def family(t):
+    if t < 0x80:
+        return "posfixint"
+    if t < 0x90:
+        return "fixmap"
+    if t < 0xA0:
+        return "fixarray"
+    if t < 0xC0:
+        return "fixstr"
+    if t >= 0xE0:
+        return "negfixint"
+    return {0xC0: "nil", 0xC1: "reserved", 0xC2: "bool", 0xC3: "bool", 0xC4: "bin8", 0xC5: "bin16", 0xC6: "bin32", 0xC7: "ext8", 0xC8: "ext16",
+            0xC9: "ext32", 0xCA: "float32", 0xCB: "float64", 0xCC: "uint8", 0xCD: "uint16", 0xCE: "uint32", 0xCF: "uint64", 0xD0: "int8",
+            0xD1: "int16", 0xD2: "int32", 0xD3: "int64", 0xD4: "fixext1", 0xD5: "fixext2", 0xD6: "fixext4", 0xD7: "fixext8", 0xD8: "fixext16",
+            0xD9: "str8", 0xDA: "str16", 0xDB: "str32", 0xDC: "array16", 0xDD: "array32", 0xDE: "map16", 0xDF: "map32"}[t]
 
 
 def eval_refuse(ctx, c, rec, err, mo):
     c = c.get("orig", c)
     ctx.case(c, True)
     ctx.hit("kind:refuse:" + c.get("why", "?"))
-    me = model_encode_form(mo)
+    me = model_forms(mo, "encode")[0]
     if rec is not None:
         # the implementation did emit something: then it must round-trip (oracle) -- and the model must agree
         if me[0] != "ok":
@@ -447,18 +864,28 @@ def eval_refuse(ctx, c, rec, err, mo):
         ctx.disagree(c, {"encode": ["err", err]}, {"encode": me}, "encoder refusal differs from the model")
 
 
+def big_item(c):
+    """One item whose msgpack form makes the payload exactly n bytes: 0x91 + bin/str header + data."""
+    n = c["n"]
+    text = c.get("shape") == "str"
+    for hdr, lim in ((1, 32), (2, 256), (3, 65536), (5, 2**32)) if text else ((2, 256), (3, 65536), (5, 2**32)):
+        ln = n - 1 - hdr
+        if 0 <= ln < lim:
+            return "x" * ln if text else b"\x00" * ln
+    raise InfraError("big case: no item gives a payload of %d bytes" % n)
+
+
 def eval_big(ctx, c, mo):
-    """Records near the cap: payload is one binary item so that the payload has exactly n bytes."""
+    """Records near the cap and near 2^16: the payload has exactly n bytes."""
     from orso.exceptions import DataError
 
     n, cut, ext = c["n"], c.get("cut", 0), c.get("ext", 0)
     ctx.case(c, True)
     ctx.hit("kind:big")
+    ctx.hit("big:n-MAX=%d" % (n - MAX) if abs(n - MAX) <= 1000 else "big:other")
     R = row_class(1)
-    item = b"\x00" * (n - 6)  # 0x91 0xc6 + 4 length bytes + data
-    m = wire.dec_all(mo[3:]) if mo.startswith("ok ") else None
-    if m is None:
-        raise InfraError("model rejected bigframe: %r" % mo)
+    item = big_item(c)
+    m = model_forms(mo, "bigframe")
     try:
         rec = R((item,)).as_bytes
     except DataError:
@@ -473,21 +900,92 @@ def eval_big(ctx, c, mo):
         ctx.disagree(c, {"record_len": len(rec)}, {"bigframe": m[0]}, "the encoder emits a record the model refuses")
         return
     data = rec[: len(rec) - cut] + b"\x00" * ext
-    g, exc = impl_decode(1, data)
-    if cut == 0 and ext == 0:
-        if g[0] != "ok" or g[1][0][1] != item:
-            ctx.fail(c, "round trip of a record at the cap fails", impl=g[:1], model=m)
-            return
-        want = ["ok", n]
-    else:
-        if g[0] == "ok" or exc != "DataError":
-            ctx.fail(c, "a torn/extended record at the cap is not rejected with a data error", impl=[g[0], exc], model=m)
-            return
-        want = g
+    outs = decode_all(1, [data])
+    want = None
+    for who in ("bin", "src"):
+        if outs[who] is None:
+            continue
+        g, exc = outs[who][0]
+        if cut == 0 and ext == 0:
+            if g[0] != "ok" or g[1][0][1] != item:
+                ctx.fail(c, "an emitted record near the size limit is rejected or decoded differently" + WHO[who], impl=[g[0], exc] if g[0] != "ok" else "different item", model=m)
+                return
+            want = ["ok", n]
+        else:
+            if g[0] == "ok" or exc != "DataError":
+                ctx.fail(c, "a torn/extended record near the size limit is not rejected with a data error" + WHO[who], impl=[g[0], exc], model=m)
+                return
+            want = g
     if m[0][0] != "ok" or m[0][1][:6] != rec[:6] or m[0][2] != len(rec):
         ctx.disagree(c, {"header": rec[:6], "len": len(rec)}, {"bigframe": m[0]}, "header of a large record differs")
     elif m[1] != want:
         ctx.disagree(c, {"guards": want}, {"guards": m[1]}, "guard outcome on a large record differs")
+
+
+# --------------------------------------------------------------------------- `default=` glue (outside the value domain)
+
+GLUE = {
+    # name: (constructor, image in the wire universe) — image = what orso/row.py's `serialize` or ormsgpack's native
+    # support turns the item into; measured once, stated here, compared on every run
+    "decimal": (lambda: __import__("decimal").Decimal("1.50"), "1.50"),
+    "complex": (lambda: 1 + 2j, "(1+2j)"),
+    "set": (lambda: {7}, "{7}"),
+    "frozenset": (lambda: frozenset([7]), "frozenset({7})"),
+    "fraction": (lambda: __import__("fractions").Fraction(1, 2), "1/2"),
+    "range": (lambda: range(3), "range(0, 3)"),
+    "type": (lambda: float, "<class 'float'>"),
+    "tuple": (lambda: (1, "a", None), [1, "a", None]),
+    "bytearray": (lambda: bytearray(b"ab"), b"ab"),
+    "np.int64": (lambda: __import__("numpy").int64(-5), -5),
+    "np.uint64": (lambda: __import__("numpy").uint64(2**64 - 1), 2**64 - 1),
+    "np.bool": (lambda: __import__("numpy").bool_(True), True),
+    "np.float64": (lambda: __import__("numpy").float64(-0.0), -0.0),
+    "np.str": (lambda: __import__("numpy").str_("é"), "é"),
+    "ndarray:int": (lambda: __import__("numpy").array([1, 2, 3]), [1, 2, 3]),
+    "ndarray:object": (lambda: __import__("numpy").array([1, "a", None], dtype=object), [1, "a", None]),
+    "ndarray:str": (lambda: __import__("numpy").array(["a", "b"]), ["a", "b"]),
+    "ndarray:strided": (lambda: __import__("numpy").array([[1, 2], [3, 4]])[:, 0], [1, 3]),
+    "ndarray:empty": (lambda: __import__("numpy").array([], dtype="float64"), []),
+    "date": (lambda: datetime.date(2024, 1, 2), "2024-01-02"),
+    "time": (lambda: datetime.time(1, 2, 3), "01:02:03"),
+    "datetime": (lambda: datetime.datetime(2024, 1, 2, 3, 4, 5), "2024-01-02T03:04:05"),
+    "datetime:utc": (lambda: datetime.datetime(2024, 1, 2, 3, 4, 5, tzinfo=datetime.timezone.utc), "2024-01-02T03:04:05+00:00"),
+    "np.datetime64:s": (lambda: __import__("numpy").datetime64("2024-01-02T03:04:05"), "2024-01-02T03:04:05"),
+    "uuid": (lambda: __import__("uuid").UUID(int=5), "00000000-0000-0000-0000-000000000005"),
+}
+
+
+def glue_prepare(c):
+    make, image = GLUE[c["what"]]
+    before, after = c.get("before", []), c.get("after", [])
+    R = row_class(len(before) + 1 + len(after))
+    info = {"image": before + [image] + after, "ts": 0, "rec": None, "exc": None}
+    try:
+        rec = R(tuple(before) + (make(),) + tuple(after)).as_bytes
+        info["rec"] = rec
+        info["ts"] = int.from_bytes(rec[6:14], "big")
+    except Exception as e:
+        info["exc"] = "%s: %s" % (type(e).__name__, str(e)[:100])
+    return info
+
+
+def eval_glue(ctx, c, info, mo):
+    """Items outside the property's value domain: the property promises nothing about them; the model's
+    encoder applied to the stated image must give the implementation's record (what `default=` does)."""
+    ctx.case(c, True)
+    ctx.hit("kind:glue")
+    ctx.hit("glue:" + c["what"])
+    me = model_forms(mo, "encode")[0]
+    if info["rec"] is None:
+        ctx.disagree(c, {"encode": info["exc"]}, {"encode": me}, "a non-native item the encoder used to serialise is refused")
+        return
+    if me[0] != "ok" or me[1] != info["rec"]:
+        ctx.disagree(c, {"record": info["rec"]}, {"encode": me, "image": info["image"]}, "a non-native item is serialised differently from its stated image")
+        return
+    g, exc = impl_decode(len(info["image"]), info["rec"])
+    want = ["ok", [["v", x] for x in info["image"]]]
+    if not wire.same(g, want):
+        ctx.disagree(c, {"decode": g}, {"decode": want}, "the record of a non-native item does not decode to its stated image")
 
 
 # --------------------------------------------------------------------------- generators
@@ -510,12 +1008,32 @@ def small_containers():
         [[[[[1]]]]], {"k": {"k": {"k": [1, {"z": -1}]}}}, list(range(15)), list(range(16)), list(range(17)),
         {str(i): i for i in range(15)}, {str(i): i for i in range(16)}, {"é": "日本", "\U0001f600": [b"\x00"]},
         ["__datetime__"], ["__datetime__", 1, 2], [["__datetime__", 1]], {"__datetime__": 1}, ["__datetime", 1],
-        ["__datetime__x", 1], [b"__datetime__", 1], [1, "__datetime__"],
+        ["__datetime__x", 1], [b"__datetime__", 1], [1, "__datetime__"], {"k": ["__datetime__", 1]}, ["__DATETIME__", 1],
+        ["", 1], [None, 1],
     ]
 
 
+def extracted(key, default):
+    """An item the extractor read from the working tree on this run (Generated/generated.json)."""
+    try:
+        with open(os.path.join(core.LEAN, "OrsoVerif", "Generated", "generated.json")) as f:
+            return json.load(f).get(key, default)
+    except Exception:
+        return default
+
+
+def marker_containers():
+    """Two-element lists headed by whatever text the *source* treats as its datetime marker (decoder and
+    encoder side): only `['__datetime__', x]` is excluded by the property, any other marker is an ordinary row."""
+    out = []
+    for m in {extracted("pyx.reserved_form", [2, 0, "__datetime__", 1])[2], extracted("row.reserved_form", ["__datetime__", 2])[0]}:
+        if isinstance(m, str) and m != "__datetime__":
+            out += [[m, 1], [m, 1.5], [m, None]]
+    return out
+
+
 def exhaustive_cases():
-    vals = SCALARS + small_containers()
+    vals = SCALARS + small_containers() + marker_containers()
     yield {"kind": "row", "row": []}
     for v in vals:
         yield {"kind": "row", "row": [v]}
@@ -525,6 +1043,9 @@ def exhaustive_cases():
             yield {"kind": "row", "row": [a, b]}
     for v in [[1, 2], {"a": [1, 2]}, [[1, "x"], [2, "y"]]]:
         yield {"kind": "row", "row": [v, v], "tuples": True}
+    for cls in ("tuples_only", "base"):
+        for row in ([], [None], [1, "a"], [-0.0, True, b"x", [1, {"k": 2}]]):
+            yield {"kind": "row", "row": row, "cls": cls}
 
 
 def boundary_cases(ctx):
@@ -543,6 +1064,28 @@ def boundary_cases(ctx):
     for d in (252, 253, 254):
         out.append({"kind": "deep", "depth": d, "shape": "list", "inner": []})
         out.append({"kind": "deep", "depth": d, "shape": "mixed", "inner": {}})
+    return out
+
+
+def shape_cases(ctx):
+    """Rows of one shape (what a fast path would single out) at every width where a MessagePack header
+    changes form, alone and with one element of another kind at either end."""
+    kinds = {
+        "posfixint": lambda i: i % 128, "uint8": lambda i: 128 + i % 128, "negfixint": lambda i: -1 - i % 32, "zero": lambda i: 0,
+        "none": lambda i: None, "bool": lambda i: i % 2 == 0, "float": lambda i: i * 0.5, "fixstr": lambda i: "s%d" % (i % 10),
+        "empty-str": lambda i: "", "bin": lambda i: bytes([i % 256]), "empty-list": lambda i: [], "empty-map": lambda i: {},
+        "int64": lambda i: 2**40 + i, "pair": lambda i: [i % 128, "v"],
+    }
+    widths = [15, 16, 17, 31, 32, 33, 127, 128, 129, 255, 256, 257]
+    out = []
+    for name, f in kinds.items():
+        for w in widths:
+            out.append({"kind": "row", "row": [f(i) for i in range(w)], "shape": name, "light": w > 40})
+        out.append({"kind": "row", "row": [f(i) for i in range(16)] + ["odd"], "shape": name})
+        out.append({"kind": "row", "row": [None] + [f(i) for i in range(16)], "shape": name})
+    for w in (65535, 65536, 65537) if ctx.tier == "thorough" else (65536,):
+        out.append({"kind": "row", "row": [i % 128 for i in range(w)], "shape": "posfixint", "light": True})
+        out.append({"kind": "row", "row": [False] * w, "shape": "bool", "light": True})
     return out
 
 
@@ -566,7 +1109,73 @@ def random_row(rng, big=False):
     c = {"kind": "row", "row": row}
     if rng.random() < 0.2:
         c["tuples"] = True
+    q = rng.random()
+    if q < 0.1:
+        c["cls"] = "tuples_only"
+    elif q < 0.2:
+        c["cls"] = "base"
     return c
+
+
+# values that compare equal under Python's == (and hash alike) but are different values of the domain
+EQ_GROUPS = [[0, False, 0.0, -0.0], [1, True, 1.0], [-1, -1.0], [2, 2.0], [2**53, float(2**53)], [255, 255.0], [-(2**63), -float(2**63)],
+             [2**63, float(2**63)]]
+
+
+def eq_variant(rng, row):
+    """A different row that Python's == calls equal (element-wise swaps inside the EQ_GROUPS)."""
+    def sw(v):
+        if isinstance(v, list):
+            return [sw(x) for x in v]
+        if isinstance(v, (bool, int, float)) and v == v:
+            for g in EQ_GROUPS:
+                if any(v == x for x in g):
+                    return rng.choice([x for x in g if not wire.same(x, v)])
+        return v
+
+    return [sw(v) for v in row]
+
+
+def seq_cases(rng, n_random):
+    out = []
+    # Python-equal, value-different rows one after the other (both orders), flat (hashable) and nested
+    for g in EQ_GROUPS:
+        for a in g:
+            for b in g:
+                if not wire.same(a, b):
+                    out.append({"kind": "seq", "why": "py-equal", "rows": [[a], [b], [a]]})
+    out.append({"kind": "seq", "why": "py-equal", "rows": [[0, False, 0.0], [False, 0, -0.0], [0.0, 0.0, 0]]})
+    out.append({"kind": "seq", "why": "py-equal", "rows": [[-0.0, "reading", None], [0.0, "reading", None], [0, "reading", None]]})
+    out.append({"kind": "seq", "why": "py-equal", "rows": [[[1, 2]], [[True, 2.0]], [[1.0, 2]]], "tuples": True})
+    out.append({"kind": "seq", "why": "py-equal", "rows": [[[1, 2]], [[True, 2.0]], [[1.0, 2]]]})
+    out.append({"kind": "seq", "why": "py-equal", "rows": [[{"a": 1}], [{"a": True}], [{"a": 1.0}]]})
+    # the same row again, the same values in rows of different width, bytes vs text
+    out.append({"kind": "seq", "why": "repeat", "rows": [[1, "a"], [1, "a"], [1, "a"]]})
+    out.append({"kind": "seq", "why": "repeat", "rows": [[], [], [None], [], [None, None]]})
+    out.append({"kind": "seq", "why": "width", "rows": [[1], [1, 2], [1], [1, 2, 3], [1, 2]]})
+    out.append({"kind": "seq", "why": "kinds", "rows": [["a"], [b"a"], ["a"], [[]], [{}], [[]], [""], [b""], [None], [False], [0]]})
+    nan1, nan2 = struct.unpack(">d", bytes.fromhex("7ff8000000000000"))[0], struct.unpack(">d", bytes.fromhex("7ff8000000000001"))[0]
+    out.append({"kind": "seq", "why": "nan", "rows": [[nan1], [nan2], [-nan1], [nan1]]})
+    out.append({"kind": "seq", "why": "size", "rows": [["x" * 40], ["x" * 4], ["x" * 400], ["x" * 4]]})
+    for _ in range(n_random):
+        q = rng.random()
+        if q < 0.5:
+            base = [rng.choice([x for g in EQ_GROUPS for x in g] + [None, "a", 7, 2.5]) for _ in range(rng.randint(1, 4))]
+            rows = [base]
+            for _ in range(rng.randint(1, 3)):
+                rows.append(eq_variant(rng, rows[-1]))
+            rows.append(base)
+            c = {"kind": "seq", "why": "py-equal", "rows": rows}
+            if rng.random() < 0.3:
+                c["rows"] = [[r] for r in rows]  # one nested item per row
+                c["tuples"] = rng.random() < 0.6
+            out.append(c)
+        else:
+            rows = [random_row(rng)["row"] for _ in range(rng.randint(2, 12))]
+            if rng.random() < 0.5:
+                rows.append(rows[0])
+            out.append({"kind": "seq", "why": "random", "rows": rows})
+    return out
 
 
 MSGPACK_TAGS = [0x90, 0x91, 0x92, 0x93, 0x80, 0x81, 0xa0, 0xa1, 0xa3, 0xc0, 0xc1, 0xc2, 0xc3, 0xc4, 0xc5, 0xc6, 0xc7, 0xc8, 0xc9,
@@ -585,6 +1194,10 @@ def tame(payload):
             b[i + 1] = 0
             b[i + 2] = 0
     return bytes(b)
+
+
+def framed(payload, b0=0x10, b1=0, ts=b"\0" * 8):
+    return bytes([b0, b1]) + struct.pack(">I", len(payload)) + ts + payload
 
 
 def random_bytes_case(rng):
@@ -609,8 +1222,59 @@ def random_bytes_case(rng):
     return {"kind": "bytes", "width": 1, "data": data}
 
 
+def mutated_payload_case(rng, recs):
+    """A well-framed record whose *payload* is an emitted payload with one byte changed, a byte dropped or
+    a family header rewritten to its longer form: the decoder must give a row or an error, as the model says."""
+    rec = rng.choice(recs)
+    p = bytearray(rec[14:])
+    if not p:
+        p = bytearray(b"\x90")
+    q = rng.random()
+    i = rng.randrange(len(p))
+    if q < 0.4:
+        p[i] = rng.choice(MSGPACK_TAGS) if rng.random() < 0.7 else rng.getrandbits(8)
+    elif q < 0.6:
+        del p[i]
+    elif q < 0.8:
+        p.insert(i, rng.choice(MSGPACK_TAGS))
+    else:
+        p[i] ^= 1 << rng.randrange(8)
+    return {"kind": "bytes", "width": 1, "data": framed(tame(bytes(p)), b0=rec[0], b1=rec[1], ts=rec[6:14]), "from": "mutated-payload"}
+
+
+def family_cases():
+    """Every MessagePack family on the decode side, in every length form, inside a one-item row and as the
+    whole payload (never emitted in the longer forms; accepted or refused exactly as the model says)."""
+    I = struct.pack
+    forms = [
+        b"\x05", b"\xcc\x05", b"\xcd\x00\x05", b"\xce\x00\x00\x00\x05", b"\xcf" + I(">Q", 5), b"\xcf" + I(">Q", 2**64 - 1),
+        b"\xff", b"\xe0", b"\xd0\xff", b"\xd0\x80", b"\xd1\xff\xff", b"\xd1\x80\x00", b"\xd2\xff\xff\xff\xff", b"\xd2\x80\x00\x00\x00",
+        b"\xd3" + I(">q", -1), b"\xd3" + I(">q", -(2**63)), b"\xd0\x05", b"\xd3" + I(">q", 5),
+        b"\xa1a", b"\xd9\x01a", b"\xda\x00\x01a", b"\xdb\x00\x00\x00\x01a", b"\xd9\x00", b"\xda\x00\x00", b"\xdb\x00\x00\x00\x00",
+        b"\xd9\x02\xc3\xa9", b"\xd9\x01\xc3", b"\xa2\xc0\x80", b"\xa3\xed\xa0\x80", b"\xa4\xf4\x90\x80\x80", b"\xa4\xf0\x9f\x98\x80",
+        b"\xc4\x01a", b"\xc5\x00\x01a", b"\xc6\x00\x00\x00\x01a", b"\xc4\x00", b"\xc4\x02a",
+        b"\x91\x01", b"\xdc\x00\x01\x01", b"\xdd\x00\x00\x00\x01\x01", b"\xdc\x00\x00", b"\xdd\x00\x00\x00\x00", b"\xdc\x00\x02\x01",
+        b"\x81\xa1k\x01", b"\xde\x00\x01\xa1k\x01", b"\xdf\x00\x00\x00\x01\xa1k\x01", b"\xde\x00\x00", b"\x81\x01\x01", b"\x81\xc0\x01",
+        b"\x81\xc4\x01k\x01", b"\x82\xa1k\x01\xa1k\x02", b"\x81\xd9\x01k\x01", b"\x81\xda\x00\x01k\x01", b"\x81\xdb\x00\x00\x00\x01k\x01",
+        b"\xca" + I(">f", 1.5), b"\xca\x7f\xc0\x00\x00", b"\xca\x00\x00\x00\x01", b"\xcb" + I(">d", -0.0), b"\xca\x00\x00", b"\xcb\x00",
+        b"\xc0", b"\xc1", b"\xc2", b"\xc3",
+        b"\xd4\x01\x00", b"\xd5\x01\x00\x00", b"\xd6\x01" + b"\0" * 4, b"\xd7\x01" + b"\0" * 8, b"\xd8\x01" + b"\0" * 16,
+        b"\xc7\x01\x01\x00", b"\xc8\x00\x01\x01\x00", b"\xc9\x00\x00\x00\x01\x01\x00", b"\xd6\xff\x00\x00\x00\x00", b"\xd7\xff" + b"\0" * 8,
+        b"\xc7\x0c\xff" + b"\0" * 12,
+        b"\x92\xac__datetime__\x01", b"\x92\xd9\x0c__datetime__\x01", b"\x92\xac__datetime__\xca\x3f\xc0\x00\x00", b"\x92\xac__datetime__\xc3",
+        b"\x92\xac__datetime__\xc0", b"\xdc\x00\x02\xac__datetime__\x01", b"\x92\xc4\x0c__datetime__\x01", b"\x93\xac__datetime__\x01\x02",
+    ]
+    for f in forms:
+        yield {"kind": "bytes", "width": 1, "data": framed(b"\x91" + f), "from": "family"}
+        yield {"kind": "bytes", "width": 1, "data": framed(f), "from": "family-bare"}
+        yield {"kind": "bytes", "width": 2, "data": framed(b"\x92" + f + b"\xc0"), "from": "family"}
+        if len(f) > 1:
+            yield {"kind": "bytes", "width": 1, "data": framed(b"\x91" + f[:-1]), "from": "family-truncated"}
+        yield {"kind": "bytes", "width": 1, "data": framed(b"\x91" + f + b"\x00"), "from": "family-trailing"}
+
+
 def float32_cases():
-    """The float32 family (never emitted, accepted by the decoder): boundary bit patterns."""
+    """The float32 family (never emitted for Python floats, accepted by the decoder): boundary bit patterns."""
     pats = [0, 0x80000000, 1, 0x007FFFFF, 0x00800000, 0x3F800000, 0xBFC00000, 0x7F7FFFFF, 0x7F800000, 0xFF800000,
             0x7FC00000, 0x00000002, 0x00400000, 0x34000000, 0x7F800001, 0xFFC12345]
     for p in pats:
@@ -620,11 +1284,12 @@ def float32_cases():
 
 def reserved_cases(rng):
     out = []
-    for x in (0, 1, 86400, 1700000000, 1.5, 1700000000.25, -1):
+    for x in (0, 1, 86400, 1700000000, 1.5, 1700000000.25, -1, True, False):
         out.append({"kind": "reserved", "row": [["__datetime__", x]]})
         out.append({"kind": "reserved", "row": [1, ["__datetime__", x], "a"]})
-    for x in ("a", None, [1], b"x"):
+    for x in ("a", None, [1], b"x", {}, ["__datetime__", 1]):
         out.append({"kind": "reserved", "row": [["__datetime__", x]]})
+    out.append({"kind": "reserved", "row": [["__datetime__", 5]], "tuples": True})
     return out
 
 
@@ -636,47 +1301,74 @@ def refuse_cases():
     ]
 
 
+def glue_cases():
+    out = [{"kind": "glue", "what": w} for w in GLUE]
+    out.append({"kind": "glue", "what": "decimal", "before": [1, "a"], "after": [None]})
+    out.append({"kind": "glue", "what": "ndarray:object", "before": [[]], "after": [{"k": 1}]})
+    return out
+
+
+def cap_cases(ctx):
+    big = [{"kind": "big", "n": MAX + 1}, {"kind": "big", "n": MAX}, {"kind": "big", "n": MAX - 13, "shape": "str"},
+           {"kind": "big", "n": MAX - 14}, {"kind": "big", "n": 70000}, {"kind": "big", "n": 70000, "cut": 3},
+           {"kind": "big", "n": 70000, "ext": 2}, {"kind": "big", "n": 65536 + 14}, {"kind": "big", "n": 65536 - 14, "shape": "str"}]
+    if ctx.tier == "thorough":
+        big += [{"kind": "big", "n": MAX + 1000}, {"kind": "big", "n": MAX, "cut": 1}, {"kind": "big", "n": MAX, "ext": 1},
+                {"kind": "big", "n": MAX, "shape": "str"}, {"kind": "big", "n": MAX - 1}, {"kind": "big", "n": MAX - 15},
+                {"kind": "big", "n": 8 * 1024 * 1024 + 1}, {"kind": "big", "n": 8 * 1024 * 1024 + 1, "cut": 5},
+                {"kind": "big", "n": 8 * 1024 * 1024 - 14}, {"kind": "big", "n": 8 * 1024 * 1024}, {"kind": "big", "n": MAX, "cut": MAX // 2},
+                {"kind": "big", "n": 2**24 - 1, "shape": "str"}, {"kind": "big", "n": 2**16}, {"kind": "big", "n": 2**16 - 1}]
+    return big
+
+
 def run(ctx):
-    ctx.note("rule", "one case = one row (encoded, decoded, and decoded again under every strict prefix up to 4 KiB "
-             "records / sampled beyond, 4 extensions, 36 guarded and 13 unguarded bit flips), or one arbitrary buffer; "
-             "non-trivial = non-empty row that was emitted, or a buffer of at least header size; distinct by canonical JSON")
+    ctx.note("rule", "one case = one row (encoded, decoded by the loaded binary and by compiled.pyx's source-level shadow, and decoded again under "
+             "every strict prefix up to 4 KiB records / sampled beyond, 4 extensions, the 36 single-bit flips and 15 other values of the version "
+             "nibble, up to 15 other length fields, 13 unguarded bit flips), or one sequence of rows serialised in one process, or one arbitrary "
+             "buffer; non-trivial = non-empty row that was emitted, a sequence of at least two rows, or a buffer of at least header size; distinct "
+             "by canonical JSON")
     ctx.note("assumptions", [
         "ormsgpack is external: its format choices, its pack depth limit (255 containers) and unpack recursion limit (1023 levels) are parameters of the model, validated byte-for-byte / at the boundary by correspondence",
         "time.time_ns() is a parameter (< 2^64); bytes 6..13 are read back from the record and fed to the model",
         "text is valid Unicode (no lone surrogates: packb raises on them)",
         "decoded maps with repeated keys (never emitted) are compared after applying Python's dict semantics to the model's association list",
+        "the stream reader (split) is the model's and the harness's: orso ships no reader for concatenated records; what is checked on the implementation is that its records, concatenated, are cut back into exactly those records by their length fields",
     ])
+    f, why = shadow()
+    ctx.note("source_shadow", "compiled.pyx:from_bytes_cython executed by harness/pyxshadow.py as a second decoder" if f is not None
+             else "unavailable (%s): the loaded binary is the only decoder under test" % why)
     rng = ctx.rng
     batch = list(exhaustive_cases())
     n_ex = len(batch)
     evaluate(ctx, batch)
     ctx.exhaustive = False
     ctx.note("exhaustive_scope", "all rows of width 0, 1 over %d boundary values and all rows of width 2 over 15 values (%d rows); "
-             "for each, every tear point, the 36 guarded bit flips and 4 extensions" % (len(SCALARS) + len(small_containers()), n_ex))
-    evaluate(ctx, list(float32_cases()) + reserved_cases(rng) + refuse_cases())
+             "for each, every tear point, the 36 guarded bit flips, every other version nibble, 4 extensions" % (len(SCALARS) + len(small_containers()), n_ex))
+    evaluate(ctx, list(float32_cases()) + list(family_cases()) + reserved_cases(rng) + refuse_cases() + glue_cases())
+    evaluate(ctx, seq_cases(rng, ctx.scale(60, 1500)))
     evaluate(ctx, boundary_cases(ctx))
-    n_rows = ctx.scale(700, 12000)
-    n_bytes = ctx.scale(6000, 150000)
+    evaluate(ctx, shape_cases(ctx))
+    n_rows = ctx.scale(450, 12000)
+    n_bytes = ctx.scale(5000, 150000)
     done = 0
+    pool = []
     while done < n_rows and ctx.time_left() > 8:
         k = min(150, n_rows - done)
-        evaluate(ctx, [random_row(rng, big=(i % 5 == 0)) for i in range(k)])
+        batch = [random_row(rng, big=(i % 5 == 0)) for i in range(k)]
+        evaluate(ctx, batch)
         done += k
+    _RECORD_HISTORY[0] = False
+    for row, tuples in HISTORY[-400:]:
+        rec, _ = impl_encode({"row": row, "tuples": tuples})
+        if rec is not None and len(rec) < 300:
+            pool.append(rec)
+    _RECORD_HISTORY[0] = True
     done = 0
     while done < n_bytes and ctx.time_left() > 4:
-        k = min(3000, n_bytes - done)
-        evaluate(ctx, [random_bytes_case(rng) for _ in range(k)])
+        k = min(2500, n_bytes - done)
+        evaluate(ctx, [random_bytes_case(rng) if (i % 3 or not pool) else mutated_payload_case(rng, pool) for i in range(k)])
         done += k
-    # the cap
-    big = [{"kind": "big", "n": MAX + 1}, {"kind": "big", "n": MAX + 1000}]
-    if ctx.tier == "thorough":
-        big += [{"kind": "big", "n": MAX}, {"kind": "big", "n": MAX, "cut": 1}, {"kind": "big", "n": MAX, "ext": 1},
-                {"kind": "big", "n": 8 * 1024 * 1024 + 1}, {"kind": "big", "n": 8 * 1024 * 1024 + 1, "cut": 5},
-                {"kind": "big", "n": MAX, "cut": MAX // 2}]
-    else:
-        big += [{"kind": "big", "n": MAX}, {"kind": "big", "n": 70000}, {"kind": "big", "n": 70000, "cut": 3},
-                {"kind": "big", "n": 70000, "ext": 2}]
-    for c in big:
+    for c in cap_cases(ctx):
         evaluate(ctx, [c])
 
 
@@ -685,6 +1377,7 @@ def intensify(ctx):
     n = 0
     while n < 4000 and ctx.time_left() > 5:
         evaluate(ctx, [random_row(rng, big=(i % 4 == 0)) for i in range(150)])
+        evaluate(ctx, seq_cases(rng, 40))
         evaluate(ctx, [random_bytes_case(rng) for _ in range(2000)])
         n += 150
 
@@ -694,3 +1387,7 @@ def replay(ctx, case):
 
 
 KNOWN_PREDICATES = {}
+
+if __name__ == "__main__":
+    if "--fresh" in sys.argv:
+        _fresh_main()
